@@ -856,6 +856,22 @@ class ExternalTensor(TensorBase, _protocols.TensorProtocol):  # pylint: disable=
                 and os.path.normcase(os.path.realpath(path_real)) == path_real
                 and os.path.normcase(os.path.realpath(base_real)) == base_real
             )
+            # A fixed point of realpath() is not necessarily link-free either: when realpath()
+            # meets, inside the target of a link, the very link it is resolving, it reports a loop
+            # and returns its INPUT unresolved - and it can be led back there by a link it could not
+            # see (ENAMETOOLONG / EACCES) followed by "..", which it strips lexically while the
+            # kernel follows the unseen link and goes up from ITS target. So look at the answers
+            # themselves: no prefix of a resolved path may be a symbolic link, and every prefix
+            # must be examinable (os.lstat raising OSError fails closed below).
+            for resolved in (path_real, base_real):
+                prefix = resolved
+                while resolved_ok:
+                    if stat.S_ISLNK(os.lstat(prefix).st_mode):
+                        resolved_ok = False
+                    parent = os.path.dirname(prefix)
+                    if parent == prefix:
+                        break
+                    prefix = parent
         except OSError:
             resolved_ok = False
         if not resolved_ok:
